@@ -162,6 +162,15 @@ def gen_docs(ctx, total):
         toks, kind, arg, before = r
         docs.append(Doc("syntax-fault", render(toks, rng, rng.choice([0.0, 0.0, 0.2])), None, meta=kind,
                         pending=("syn", (kind, arg, before, len(toks)))))
+    # a deleted right operand: known finding C03-rhs-missing-operand (the diagnostic is published too far left)
+    for _ in range(max(6, int(total * 0.03))):
+        prog = semtest.well_typed(rng, ndecls=rng.randrange(1, 4))
+        r = splfaults.missing_right_operand(prog, rng)
+        if r is None:
+            continue
+        toks, kind, arg, before, inside_par = r
+        docs.append(Doc("syntax-fault-known", render(toks, rng, rng.choice([0.0, 0.0, 0.2])), None, meta="C03-rhs-missing-operand",
+                        pending=("syn", (kind, arg, before, len(toks)))))
     for _ in range(int(total * 0.10)):
         prog, _ = splgen.well_typed_program(rng, ndecls=rng.randrange(1, 4))
         r = splfaults.inject(prog, rng)
@@ -237,7 +246,7 @@ def check_expect(d, errs):
         left.remove(hit)
         if d.stream == "fault" and kind in NAMED and hit[3][0] != extra:
             return "%s quotes %r, the culprit is %r" % (kind, hit[3][0], extra)
-        if d.stream == "syntax-fault" and extra is not None and hit[3][0] != extra:
+        if d.stream in ("syntax-fault", "syntax-fault-known") and extra is not None and hit[3][0] != extra:
             return "%s names %r, expected %r" % (kind, hit[3][0], extra)
     return None
 
@@ -382,9 +391,14 @@ def run(ctx):
             if why is not None and d.stream == "fault-known" and d.meta in known_ids and errs == []:
                 # the listed finding: the one prescribed diagnostic is missing, nothing else is reported
                 known_hits[d.meta].append(i)
+            elif why is not None and d.stream == "syntax-fault-known" and d.meta in known_ids and errs is not None \
+                    and len(errs) == 1 and errs[0][2][0] == d.expect[0][0] and errs[0][0] == errs[0][1] \
+                    and errs[0][0] < d.expect[0][1][0]:
+                # the listed finding: exactly the prescribed diagnostic, with an empty range, LEFT of the prescribed place
+                known_hits[d.meta].append(i)
             elif why is not None:
                 fails["a" if d.stream == "valid" else "corpus" if d.stream == "corpus" else "b"].append((i, why))
-            elif d.stream == "fault-known":
+            elif d.stream in ("fault-known", "syntax-fault-known"):
                 known_gone[d.meta] += 1
     reported = 0
     parts = {"a": "a: a well-typed program gets a diagnostic", "b": "b: a single-fault variant does not get exactly the prescribed diagnostic(s) on the culprit",
